@@ -78,24 +78,27 @@ const (
 )
 
 // NumFixed is the number of fixed scenarios at the start of every case list.
-const NumFixed = 2
+const NumFixed = 4
 
 // Plan of one scenario: a pure function of (seed, k).
 type Plan struct {
-	K          int
-	Seed       int64
-	Fixed      string `json:",omitempty"`
-	State      string
-	ChainLen   int
-	Preset     int
-	HdrBatch   int      // headers per `headers` message served
-	Peers      []string // peer kinds; Peers[0] is honest and is the first the client reaches
-	ConnCap    int      // per-direction connection buffer (0 = unbounded)
-	Persist    bool     // PersistToDisk (filter batch writer running)
-	BlockCache uint64   `json:",omitempty"` // block cache size in bytes (0 = default)
-	Inflight   []string // call kinds started before Stop
-	NCalls     int      // how many GetBlock / GetCFilter / GetUtxo calls each
-	KTh        int      // the k-th message / pause-point hit triggers Stop
+	K     int
+	Seed  int64
+	Fixed string `json:",omitempty"`
+	State string
+	// HoldCFUntilHeaders: peers stay silent on getcfcheckpt until the client
+	// has all block headers (steering for the multi-worker fixed scenarios).
+	HoldCFUntilHeaders bool `json:",omitempty"`
+	ChainLen           int
+	Preset             int
+	HdrBatch           int      // headers per `headers` message served
+	Peers              []string // peer kinds; Peers[0] is honest and is the first the client reaches
+	ConnCap            int      // per-direction connection buffer (0 = unbounded)
+	Persist            bool     // PersistToDisk (filter batch writer running)
+	BlockCache         uint64   `json:",omitempty"` // block cache size in bytes (0 = default)
+	Inflight           []string // call kinds started before Stop
+	NCalls             int      // how many GetBlock / GetCFilter / GetUtxo calls each
+	KTh                int      // the k-th message / pause-point hit triggers Stop
 	// StopDelayMs is slept between the trigger and calling Stop; ReleaseMs is
 	// how long after CALLING Stop a parked pause point is released.
 	StopDelayMs int
@@ -187,6 +190,36 @@ func PlanFromSeed(seed int64, k int) Plan {
 		p.MuteAtStop = "blocks"
 		p.NCalls = 1
 		p.HoldMs = 300
+		return p
+	}
+
+	if k == 2 || k == 3 {
+		// Fixed: Stop while a LONG checkpointed filter-header fetch is under
+		// way on several peers at once (many query batches, several workers
+		// handing verified responses to the filter-header goroutine), right
+		// after the first (k==2) / third (k==3) cfheaders response went out.
+		p.Fixed = "stop-during-multi-worker-checkpointed-cfheaders"
+		// The filter-header goroutine is parked right before it writes the
+		// first verified batch (k==2) or right after (k==3), so that the
+		// other workers' responses pile up behind it when Stop arrives.
+		p.State = ptPrefix + PtCFBefore
+		if k == 3 {
+			p.State = ptPrefix + PtCFAfter
+		}
+		p.ChainLen = 7000 + 500*(k-2)
+		p.Preset = 0
+		p.HdrBatch = 2000
+		p.Peers = []string{PHonest, PHonest, PHonest, PHonest}
+		// The first round runs as soon as 2000 headers are in (one batch, one
+		// peer); the later rounds fetch several intervals from several peers.
+		p.HoldCFUntilHeaders = true
+		// Hit 1 is the single-batch round up to the height the handler
+		// captured when it started (2000); hit 2 is the first write of the
+		// round that fetches the rest in several batches.
+		p.KTh = 2
+		p.StopDelayMs = 39 // let the other workers' responses arrive
+		p.ReleaseMs = 60
+		p.NCalls = 0
 		return p
 	}
 
